@@ -154,7 +154,10 @@ macro_rules! do_text_token_tok {
         do_each!($i,
            span => input!(),
            frag => text_token!($text_token),
-           _ => either!(whitespace, comment),
+           // The keyword must be followed by whitespace or a comment, which is
+           // left in the input: a comment right after a keyword is a comment
+           // token like any other (it used to be dropped here).
+           _ => peek!(either!(whitespace, comment)),
            (Token {
                typ: $type,
                pos: Position::from(&span),
